@@ -1209,8 +1209,55 @@ def python_templater_errors(tier="quick", seed=0):
             "reported_as_TMP": tmp, "failed": failed, "wall_s": round(time.time() - t0, 1)}
 
 
+def near_limit_fix(tier="quick", seed=0):
+    """BOUNDED: max_parse_nodes set just above what the first parse needs -- the re-parses done while FIXING (validation of fixed
+    segments, the fix loop's own re-lints) run against the same budget and must not raise either (found by a seeding agent:
+    lint_string(fix=True) raised SQLParseError out of apply_fixes; repaired in /repo 4cc03f3)."""
+    import logging
+    logging.disable(logging.CRITICAL)
+    from sqlfluff.core import Linter, FluffConfig
+    t0 = time.time()
+    inputs = [("cols30", "SELECT " + ",".join(f"a{i}" for i in range(30)) + " FROM t\n"),
+              ("where12", "select a from t where " + " and ".join(f"c{i}=1" for i in range(12)) + "\n"),
+              ("case6", "SELECT CASE WHEN a THEN 1 WHEN b THEN 2 ELSE 3 END AS x,b  from t\n")]
+    failed, samples, ev = [], [], 0
+    span = 40 if tier == "thorough" else 16
+    try:
+        for label, sql in inputs:
+            # smallest budget with which the plain parse succeeds (bisection on the real parser)
+            lo, hi = 1, 5000
+            while lo < hi:
+                mid = (lo + hi) // 2
+                ps = Linter(config=FluffConfig(overrides={"dialect": "ansi", "max_parse_nodes": mid})).parse_string(sql)
+                if any(str(v.desc()).startswith("Maximum parse node") for v in ps.violations):
+                    lo = mid + 1
+                else:
+                    hi = mid
+            for n in range(lo, lo + span, 2):
+                ev += 1
+                try:
+                    with _deadline(_CALL_LIMIT_S):
+                        lf = Linter(config=FluffConfig(overrides={"dialect": "ansi", "max_parse_nodes": n})).lint_string(sql, fix=True)
+                        out = lf.fix_string()[0] if lf.tree is not None else sql
+                    if len(samples) < 3:
+                        samples.append({"input": label, "needed_by_first_parse": lo, "max_parse_nodes": n, "violations": len(lf.get_violations()),
+                                        "changed": out != sql})
+                except BaseException as e:     # noqa -- the observable of C04
+                    if isinstance(e, (KeyboardInterrupt, SystemExit)):
+                        raise
+                    fid = f"C04/near-limit-fix/raised[{type(e).__name__}]"
+                    if not any(f["id"] == fid for f in failed):
+                        failed.append(_failed(fid, "sqlfluff.core.linter.linter:Linter.lint_string",
+                                              {"input": label, "sql": sql, "needed_by_first_parse": lo, "max_parse_nodes": n, "message": str(e)[:200]}))
+    finally:
+        logging.disable(logging.NOTSET)
+    return {"name": "near-limit-fix", "bound": f"{len(inputs)} statements x max_parse_nodes in [need, need+{span}) step 2, lint_string(fix=True)",
+            "rule": "one evaluation = one lint+fix under a node budget just above the first parse's need; all are non-trivial",
+            "evaluations": ev, "distinct_nontrivial": ev, "samples": samples, "failed": failed, "wall_s": round(time.time() - t0, 1)}
+
+
 EXTRA = [exception_funnels, funnel_scenarios]
-BOUNDED = [limits_return_violations, fuzz_no_crash, python_templater_errors]
+BOUNDED = [limits_return_violations, fuzz_no_crash, python_templater_errors, near_limit_fix]
 
 TRUSTED = ["limit probes: `a limit was reached` is observed by read-only wrappers around ParseContext.deeper_match / increment_parse_nodes "
            "that evaluate the proved raise-conditions of contracts/c04.py on the live context before delegating to the real method"]
@@ -1219,6 +1266,7 @@ NOT_COVERED = ["exceptions escaping for inputs outside the seeded samples; CLI e
                "the dbt / sqlmesh templaters"]
 
 MUTANTS = [
+    ("fix_revalidation_limit_escapes", "sqlfluff/core/linter/fix.py", "            except SQLParseError as err:\n                # The parse limits were hit while re-parsing", "            except KeyError as err:\n                # The parse limits were hit while re-parsing"),
     ("parse_tokens_catches_lex_only", "sqlfluff/core/linter/linter.py",
      "        except SQLParseError as err:\n            if err.segment is None:", "        except SQLLexError as err:\n            if err.segment is None:"),
     ("parse_tokens_no_early_return", "sqlfluff/core/linter/linter.py",
